@@ -58,7 +58,7 @@ func run(c *kit.Ctx) {
 		return
 	}
 	c.End("")
-	n := c.N(8000, 1000000)
+	n := c.N(8000, 400000)
 	for i := 0; i < n; i++ {
 		id := fmt.Sprintf("p%d", i)
 		if !c.Mine(i, id) {
@@ -66,7 +66,7 @@ func run(c *kit.Ctx) {
 		}
 		runProgram(c, id)
 	}
-	nd := c.N(160, 16000)
+	nd := c.N(160, 8000)
 	for i := 0; i < nd; i++ {
 		id := fmt.Sprintf("d%d", i)
 		if !c.Mine(n+i, id) {
